@@ -694,11 +694,11 @@ _NONPOSIX_EMPTY = ("non-POSIX flag set, a one-letter shorthand followed by its d
                    "value only in words longer than two characters after the dash, so it gives the *next* word to the flag; LookupArg cuts at the delimiter and takes the (empty) value for attached")
 
 PARSE_CLASSES = [
-    Class("nonposix_short_empty_attached", ("C01",), ("parse",), lambda i: bool(_nonposix_short_empty_words(i)), _nonposix_short_empty_neutral, _NONPOSIX_EMPTY),
+    Class("nonposix_short_empty_attached", ("C01", "C07"), ("parse",), lambda i: bool(_nonposix_short_empty_words(i)), _nonposix_short_empty_neutral, _NONPOSIX_EMPTY),
     Class("nonposix_short_empty_attached_lookup", ("C01",), ("lookuparg",), lambda i: _lk_short_empty(i) is not None, _lk_short_empty_neutral, _NONPOSIX_EMPTY),
     Class("shorthand_only_flag_in_long_form_lookup", ("C01",), ("lookuparg",), lambda i: _lk_sonly(i) is not None, _lk_sonly_neutral,
           "LookupArg does not know a ShorthandOnly flag in its long form (`--delim`), the fork's parser drops it together with the next word (the finding shorthand_only_flag_in_long_form at the level of the lookup)"),
-    Class("nargs_any_flag_before_pending_flag", ("C01",), ("parse",), lambda i: _nargs_any_then_pending(i) is not None, _nargs_any_then_pending_neutral,
+    Class("nargs_any_flag_before_pending_flag", ("C01", "C07"), ("parse",), lambda i: _nargs_any_then_pending(i) is not None, _nargs_any_then_pending_neutral,
           "`--files --color <TAB>` with Nargs < 0 on --files: the parser accepts `--files` without a value when a flag follows it, but rejects it at the end of the line; traverse hands the line without the pending `--color` to the parser, gets `flag needs an argument: --files` and shows that message instead of completing the value of --color"),
     Class("shorthand_only_flag_in_long_form", ("C01", "C07"), ("parse",), lambda i: bool(_sonly_long_words(i)), _sonly_long_neutral,
           "a ShorthandOnly flag typed in its long form (`--delim v`): the fork's parser drops the word - and the next one as its value - without an error, traverse takes `--delim` for an unknown flag and `v` for a positional, so positional indices and (in a non-interspersed command) the reading of the following words differ"),
@@ -742,7 +742,7 @@ PARSE_CLASSES.append(
 BY = {c.id: c for c in PARSE_CLASSES}
 BY["complete_protocol_positional_from_dash_slot"].codes = ("carapace_registered:positional_slot",)
 BY["subcommand_after_parent_flags"].codes = ("subcommand_",)
-BY["nargs_any_flag_before_pending_flag"].codes = ("probe_slot_not_served",)
+BY["nargs_any_flag_before_pending_flag"].codes = ("probe_slot_not_served", "acceptable_not_offered")
 BY["shorthand_series_after_dash"].codes = ("wrong_slot:dash",)
 
 
